@@ -285,7 +285,13 @@ func TestC07(t *testing.T) {
 			}
 			seenSrc[p.src] = true
 			src := p.src
-			rs, err := s.in.settle(func(b []byte) error { return src.sendUDP(l.Addr, l.UDPPort, b) }, 0)
+			// presence waits: the first barrier round waits (up to 20 s) until every
+			// request of the burst has arrived somewhere
+			min := 0
+			if len(seenSrc) == 1 {
+				min = len(plan)
+			}
+			rs, err := s.in.settle(func(b []byte) error { return src.sendUDP(l.Addr, l.UDPPort, b) }, min)
 			if _, lost := err.(labLost); lost {
 				failf(rt, "%v", err)
 			} else if err != nil {
